@@ -96,6 +96,12 @@ CLAIMED = {
         "Trusted: reference order (f32 partial_cmp, char order, revision-or-0).",
         "DESIGN.md §3 C16",
     ),
+    "C19": (
+        "schedule exploration with a harness-owned scheduler: manual polling of the read future on a paused-clock runtime, complete enumeration of drop subsets for small sessions + proptest drop schedules",
+        "The read future is polled by hand and dropped at chosen Pending polls; every subset of the first 14 polls for three scripts x 2 modes is enumerated, plus generated sessions with read/write Pending scripts, piecewise write acceptance and interleaved application writes. Delivered results must equal the uninterrupted run; the outgoing stream must consist of whole frames with one reply per keep-alive.",
+        "Trusted: dropping between polls is the only cancellation mechanism; scripted transport. OS-level timing is not modelled.",
+        "DESIGN.md §3 C19",
+    ),
 }
 
 NOT_YET = {
